@@ -126,6 +126,7 @@ ob_b1.wants_all_cores = True
 def obligations(ctx: Ctx):
     P = PROPERTY
     return [
+        Ob(f"{P}.F3.tokens", "F", "tokenize only appends to its token list (one documented in-place % merge): an emitted token is never replaced", LX.FUNCS_LEX, LX.ob_token_stream_frame),
         Ob(f"{P}.R1", "R", "literal spellings re-lex with their type (numbers, booleans, null)", LX.FUNCS_EMIT + LX.FUNCS_LEX, partial(LX.ob_literals, oid=f"{P}.R1")),
         Ob(f"{P}.T1", "R", "unescape(escape(v)) == v for every string", LX.FUNCS_EMIT + LX.FUNCS_LEX, partial(LX.ob_escape_inverse, oid=f"{P}.T1")),
         # "reading its canonical text yields that same content again": the scalar classes the emitter writes bare / quoted re-lex to the same value
@@ -138,4 +139,4 @@ def obligations(ctx: Ctx):
         Ob(f"{P}.F2", "F", "key-specific quoting (PATTERN/REGEX) applies to string values only", ["octave_mcp.core.emitter:emit_assignment", "octave_mcp.core.emitter:_force_quote_inline_map_value"], ob_key_quoting_guard),
         Ob(f"{P}.F1", "F", "the parser builds sibling lists by append only", [PARSER + ":Parser.*"], ob_parser_append_only),
         Ob(f"{P}.B1", "B", "content read == content written == content of the canonical text, field by field against the model", ["octave_mcp.core.parser:parse", "octave_mcp.core.parser:parse_with_warnings", "octave_mcp.core.emitter:emit"], ob_b1, timeout=3000),
-    ] + LX.parse_scalar_obs(P)
+    ] + LX.parse_scalar_obs(P) + LX.emit_layout_obs(P)
